@@ -44,7 +44,11 @@ def main():
         from checks import actors_common
         actors_common.regenerate(None)
 
-    for n, f in (("pwm", pwm), ("eco", eco), ("firmware", fw), ("actors", actors), ("dispatch/ui", disp)):
+    def mainm():
+        import main_model
+        main_model.generate()
+
+    for n, f in (("pwm", pwm), ("eco", eco), ("firmware", fw), ("actors", actors), ("main", mainm), ("dispatch/ui", disp)):
         step(n, f)
     for n, s in steps:
         print(f"regen {n}: {s}")
